@@ -886,6 +886,7 @@ static std::vector<S> sibling_numerals(Rng &r, size_t n, int base, size_t &share
 static void body()
 {
     ambient::enable(3);
+    vrt::box_shifts() = true;
     vrt::require("values.short", 65536);
     vrt::require("values.unsigned short", 65536);
     vrt::require("values.int", 1000);
